@@ -530,9 +530,37 @@ func runC05(c *Ctx, r *Rec) {
 // >= the number of values the loop's source holds (tracked sizes; n = size of
 // the caller's input).
 func checkSelfFill(c *Ctx, r *Rec, info *types.Info, fd *ast.FuncDecl, qr *queueRoles) int {
-	isQueueT := func(t types.Type) bool {
+	return checkBoundedFill(c, r, "D2-no-self-fill", info, fd, "queue")
+}
+
+// checkBoundedFill: a function that creates a bounded collection (a queue: AddValue blocks when
+// full; a stack: AddValue panics when full) and fills it in a loop must give it a capacity of at
+// least the number of values it is filled with.  kind: "queue", "stack" or "" for both.
+func checkBoundedFill(c *Ctx, r *Rec, rule string, info *types.Info, fd *ast.FuncDecl, kind string) int {
+	kindOf := func(t types.Type) string {
 		n := derefNamed(t)
-		return n != nil && (n.Origin() == qr.q.Origin() || n.Obj().Name() == "QueueLike")
+		if n == nil {
+			return ""
+		}
+		ms := ifaceMethodNames(n)
+		if _, isIface := n.Underlying().(*types.Interface); !isIface {
+			// the implementation types of the collection package
+			ms = map[string]bool{}
+			for nm := range c.methodsOf(n) {
+				ms[nm] = true
+			}
+		}
+		switch {
+		case ms["AddValue"] && ms["GetCapacity"] && ms["RemoveHead"]:
+			return "queue"
+		case ms["AddValue"] && ms["GetCapacity"] && ms["RemoveTop"]:
+			return "stack"
+		}
+		return ""
+	}
+	isQueueT := func(t types.Type) bool {
+		k := kindOf(t)
+		return k != "" && (kind == "" || k == kind)
 	}
 	// is there a fill loop at all?
 	type fill struct {
@@ -568,7 +596,22 @@ func checkSelfFill(c *Ctx, r *Rec, info *types.Info, fd *ast.FuncDecl, qr *queue
 	var tracker *sizeTracker
 	capKey := func(o types.Object) string { return "cap:" + objKey(o) }
 	tracker = newSizeTracker(info, fd, env, nil)
+	// only helpers that compute a number (the capacity) are interpreted in place; stepping into
+	// everything a large function calls multiplies the paths for nothing
 	enableInlining(c, env, fd, nil)
+	allInl := env.inlinable
+	env.inlinable = func(call *ast.CallExpr) *ast.FuncDecl {
+		d := allInl(call)
+		if d == nil {
+			return nil
+		}
+		if fn := c.funcOf(d); fn != nil {
+			if sig, ok := fn.Type().(*types.Signature); ok && sig.Results().Len() == 1 && isIntegerType(sig.Results().At(0).Type()) {
+				return d
+			}
+		}
+		return nil
+	}
 	prevAssign := env.onAssign
 	env.onAssign = func(st *symState, lhs ast.Expr, rhs ast.Expr) {
 		prevAssign(st, lhs, rhs)
@@ -632,7 +675,11 @@ func checkSelfFill(c *Ctx, r *Rec, info *types.Info, fd *ast.FuncDecl, qr *queue
 				findings = append(findings, finding{fl.obj, "skip: the capacity given to the new queue is not an integer form of the inputs"})
 			default:
 				if sat, dec := satF(full, lt(capV.Lin, src)); sat || !dec {
-					findings = append(findings, finding{fl.obj, fmt.Sprintf("the queue is created with capacity %s and then filled in this same function, through the blocking AddValue, with %s values: for some inputs (on {%s}) that is more than the capacity and the call blocks on itself forever", capV.Lin, src, full)})
+					what := "the queue is created with capacity %s and then filled in this same function, through the blocking AddValue, with %s values: for some inputs (on {%s}) that is more than the capacity and the call blocks on itself forever"
+					if kindOf(fl.obj.Type()) == "stack" {
+						what = "the stack is created with capacity %s and then filled in this same function with %s values: for some inputs (on {%s}) that is more than the capacity and AddValue panics (\"reached its capacity\")"
+					}
+					findings = append(findings, finding{fl.obj, fmt.Sprintf(what, capV.Lin, src, full)})
 				}
 			}
 		}
@@ -648,7 +695,7 @@ func checkSelfFill(c *Ctx, r *Rec, info *types.Info, fd *ast.FuncDecl, qr *queue
 		seen[fl.obj] = true
 		construct := c.fdName(fd) + "/" + fl.obj.Name()
 		if len(env.problems) > 0 {
-			r.skip("D2-no-self-fill", construct, c.pos(fd.Pos()), strings.Join(dedup(env.problems), "; "))
+			r.skip(rule, construct, c.pos(fd.Pos()), strings.Join(dedup(env.problems), "; "))
 			continue
 		}
 		if checked[fl.obj] == 0 {
@@ -661,7 +708,7 @@ func checkSelfFill(c *Ctx, r *Rec, info *types.Info, fd *ast.FuncDecl, qr *queue
 				bad = f.text
 			}
 		}
-		r.verdict("D2-no-self-fill", construct, c.pos(fd.Pos()), "the capacity given to the new queue is >= the number of values it is then filled with, on all integers", bad)
+		r.verdict(rule, construct, c.pos(fd.Pos()), "the capacity given to the new queue is >= the number of values it is then filled with, on all integers", bad)
 	}
 	return sites
 }
